@@ -193,6 +193,10 @@ func (e *Engine) intrinsic(name string) stubFn {
 		return func(m *Machine, c *frame, fn *ssa.Function, a []Value) Value {
 			return sym.StrSuffixOf(m.term(a[1]), m.term(a[0]))
 		}
+	case "vrf_strcontains":
+		return func(m *Machine, c *frame, fn *ssa.Function, a []Value) Value {
+			return sym.StrContains(m.term(a[0]), m.term(a[1]))
+		}
 	case "vrf_strprefix":
 		return func(m *Machine, c *frame, fn *ssa.Function, a []Value) Value {
 			return sym.StrPrefixOf(m.term(a[1]), m.term(a[0]))
